@@ -149,6 +149,7 @@ var exprFrags = []string{"a", "b.c", "1", "-1", "1.5", "'s'", "b'x'", "@p", "NUL
 
 // probes: constructs quoted in the property texts and in DESIGN §5 (each must hold after the recorded fixes)
 var probes = []struct{ entry, text string }{
+	{"ParseExpr", "`SAFE_CAST`"}, {"ParseExpr", "`safe_cast` + 1"}, {"ParseExpr", "`replace_fields` IS NULL"}, {"ParseExpr", "a.`SAFE_CAST`"}, {"ParseExpr", "`DATE` + 1"}, {"ParseExpr", "`IF`"},
 	{"ParseExpr", "- -1"}, {"ParseExpr", "+ +1"}, {"ParseExpr", "- - a"}, {"ParseExpr", "-(-1)"}, {"ParseExpr", "NEW T(1) + 1"}, {"ParseExpr", "REPLACE_FIELDS(a, 1 AS b) + 1"},
 	{"ParseExpr", "{a: 1}.b"}, {"ParseExpr", "NEW T {a: 1}"}, {"ParseExpr", "NEW T {a}"}, {"ParseExpr", "WITH(a AS 1, a)"}, {"ParseExpr", "WITH(1)"}, {"ParseExpr", "\"\\xff\""},
 	{"ParseExpr", "a.1"}, {"ParseExpr", "a.select"}, {"ParseExpr", "a[OFFSET(1)].b"}, {"ParseExpr", "a || b * c"}, {"ParseExpr", "a = b = c"}, {"ParseExpr", "NOT a = b"},
